@@ -18,6 +18,8 @@ PID = 'C11'
 LEVEL = 'exploration'
 BUDGET = {'quick': 4800, 'thorough': 200000}
 CAP_S = {'quick': 150, 'thorough': 3000}
+# thorough tier only: 600 s x 8 coverage-guided libFuzzer campaigns over the same strategy and oracle (vlib/fuzz_driver.py)
+FUZZ = {'thorough': (600, 8)}
 RULE = ('three case families. valid: a supported hint from the shared grammar with an object violating it at a generated path - whatever the '
         'violation path raises must be a public beartype exception. junk: a hint-construction program (recursive: typing factories subscripted by junk leaves - ints, strings '
         'that do not parse or resolve, unhashables, slot wrappers, builtins, modules, nested tuples, wrong arity, special forms such as '
